@@ -605,9 +605,9 @@ def _compute_type_variable_assignments(
                         #  * Prevent creating Bar<out Number, Foo<Long, Number>>
                         a_types = find_subtypes(bound, types, True,
                                                 ignore_variance=True)
-                        for i, t in enumerate(a_types):
-                            if isinstance(t, tp.ParameterizedType):
-                                a_types[i] = t.to_variance_free()
+                        for j, a_type in enumerate(a_types):
+                            if isinstance(a_type, tp.ParameterizedType):
+                                a_types[j] = a_type.to_variance_free()
                     else:
                         try:
                             t_bound = type_var_map[t_param.bound]
